@@ -60,25 +60,69 @@ theorem lockInv_of_frame (r r' : Reg) (hi : LockInv r) (hf : Frame r r') : LockI
   obtain ⟨_, c1, c2, _⟩ := hc
   rw [← c2]; apply hm; rw [c1]; exact hl
 
-theorem runInnerN_ok (innerLog : Nat → Reg → NRet) (hin : InnerLogOk innerLog) (js : List Nat) (r : Reg)
-    (hi : LockInv r) :
-    (runInnerN innerLog js r).res ≠ .blocked ∧ Frame r (runInnerN innerLog js r).reg := by
+/-- the handler at position `k` is busy: its sink is running (marker set) -/
+def BusyAt (k : Nat) (c : Cfg) (r : Reg) : Prop := ∃ s, r[k]? = some (c, s) ∧ s.marker = true
+
+theorem busyAt_of_frame (k : Nat) (c : Cfg) (r r' : Reg) (hb : BusyAt k c r) (hf : Frame r r') :
+    BusyAt k c r' := by
+  obtain ⟨s, hk, hm⟩ := hb
+  rcases frame_get r r' k (c, s) hf hk with ⟨p', hp', hc⟩
+  obtain ⟨c', s'⟩ := p'
+  simp only [ctl, Prod.mk.injEq] at hc
+  obtain ⟨hcc, _, c2, _⟩ := hc
+  subst hcc
+  exact ⟨s', hp', by rw [c2]; exact hm⟩
+
+/-- what one use of the logger by the sink of a busy handler must satisfy -/
+def ActOk (k : Nat) (c : Cfg) (act : InnerAct → Reg → NRet) : Prop :=
+  ∀ a r, LockInv r → BusyAt k c r → (act a r).res ≠ .blocked ∧ Frame r (act a r).reg
+
+theorem removeSelfAt_ok (env : Env) (k kk : Nat) (c : Cfg) (r : Reg) (hb : BusyAt k c r) :
+    (removeSelfAt env k kk c r).res ≠ .blocked ∧ Frame r (removeSelfAt env k kk c r).reg := by
+  obtain ⟨s, hk, hm⟩ := hb
+  unfold removeSelfAt
+  simp only [hk]
+  split
+  · exact ⟨by simp, rfl⟩
+  · have hs := stopH_marker env c kk { s with published := false } hm
+    simp only [hs]
+    exact ⟨by simp, frame_set r k (c, s) _ hk (by simp [ctl])⟩
+
+theorem completeSelfAt_ok (k : Nat) (c : Cfg) (r : Reg) (hb : BusyAt k c r) :
+    (completeSelfAt k c r).res ≠ .blocked ∧ Frame r (completeSelfAt k c r).reg := by
+  obtain ⟨s, hk, hm⟩ := hb
+  unfold completeSelfAt
+  simp only [hk, tasksLocked_marker s hm]
+  exact ⟨by simp, frame_set r k (c, s) _ hk rfl⟩
+
+theorem actAt_ok (env : Env) (innerLog : Nat → Reg → NRet) (hin : InnerLogOk innerLog) (k : Nat) (c : Cfg) :
+    ActOk k c (actAt env innerLog k c) := by
+  intro a r hi hb
+  cases a with
+  | log j => exact hin j r hi
+  | removeSelf kk => exact removeSelfAt_ok env k kk c r hb
+  | completeSelf => exact completeSelfAt_ok k c r hb
+
+theorem runInnerN_ok (k : Nat) (c : Cfg) (act : InnerAct → Reg → NRet) (hin : ActOk k c act)
+    (js : List InnerAct) (r : Reg) (hi : LockInv r) (hb : BusyAt k c r) :
+    (runInnerN act js r).res ≠ .blocked ∧ Frame r (runInnerN act js r).reg := by
   induction js generalizing r with
   | nil => simp [runInnerN, Frame]
   | cons j rest ih =>
-    have h := hin j r hi
+    have h := hin j r hi hb
     unfold runInnerN
     simp only []
-    cases hres : (innerLog j r).res with
+    cases hres : (act j r).res with
     | ok =>
       simp only []
-      have ih := ih (innerLog j r).reg (lockInv_of_frame r _ hi h.2)
+      have ih := ih (act j r).reg (lockInv_of_frame r _ hi h.2) (busyAt_of_frame k c r _ hb h.2)
       exact ⟨ih.1, h.2.trans ih.2⟩
     | raised e => simp only []; exact ⟨by simp [hres], h.2⟩
     | blocked => exact absurd hres h.1
 
 theorem lockedBodyAt_ok (env : Env) (innerLog : Nat → Reg → NRet) (hin : InnerLogOk innerLog)
-    (k i : Nat) (c : Cfg) (s1 : HState) (reg1 : Reg) (hk : reg1[k]? = some (c, s1)) (hi : LockInv reg1) :
+    (k i : Nat) (c : Cfg) (s1 : HState) (reg1 : Reg) (hk : reg1[k]? = some (c, s1)) (hm1 : s1.marker = true)
+    (hi : LockInv reg1) :
     (lockedBodyAt env innerLog k i c s1 reg1).res ≠ .blocked ∧
     Frame reg1 (lockedBodyAt env innerLog k i c s1 reg1).reg := by
   unfold lockedBodyAt
@@ -87,9 +131,9 @@ theorem lockedBodyAt_ok (env : Env) (innerLog : Nat → Reg → NRet) (hin : Inn
   · split
     · refine ⟨(queuePut_ctl env c i s1).2.1, ?_⟩
       exact frame_set reg1 k (c, s1) _ hk (ctl_of_sameCtl c s1 _ (queuePut_ctl env c i s1).1)
-    · have h := runInnerN_ok innerLog hin (env.reenter i c.id) reg1 hi
+    · have h := runInnerN_ok k c _ (actAt_ok env innerLog hin k c) (env.reenter i c.id) reg1 hi ⟨s1, hk, hm1⟩
       simp only []
-      cases hres : (runInnerN innerLog (env.reenter i c.id) reg1).res with
+      cases hres : (runInnerN (actAt env innerLog k c) (env.reenter i c.id) reg1).res with
       | ok =>
         simp only []
         rcases frame_get reg1 _ k (c, s1) h.2 hk with ⟨p', hp', hc⟩
@@ -134,7 +178,7 @@ theorem protectedLockAt_ok (env : Env) (innerLog : Nat → Reg → NRet) (hin : 
       rcases List.mem_or_eq_of_mem_set hp with hp | rfl
       · exact hi p hp
       · intro _; rfl
-    have hb := lockedBodyAt_ok env innerLog hin k i c { s with marker := true, lockHeld := true } _ hk1 hi1
+    have hb := lockedBodyAt_ok env innerLog hin k i c { s with marker := true, lockHeld := true } _ hk1 rfl hi1
     rcases frame_get _ _ k _ hb.2 hk1 with ⟨p', hp', hc⟩
     obtain ⟨c', s3⟩ := p'
     simp only [ctl, Prod.mk.injEq] at hc
@@ -193,19 +237,19 @@ theorem emitAt_ok (env : Env) (innerLog : Nat → Reg → NRet) (hin : InnerLogO
       · exact ⟨by simp, rfl⟩
       · exact protectedLockAt_ok env innerLog hin k i c s reg hk hi
 
-theorem loopAt_ok (env : Env) (innerLog : Nat → Reg → NRet) (hin : InnerLogOk innerLog)
-    (i fuel k : Nat) (reg : Reg) (hi : LockInv reg) :
-    (loopAt env innerLog i fuel k reg).res ≠ .blocked ∧ Frame reg (loopAt env innerLog i fuel k reg).reg := by
-  induction fuel generalizing k reg with
-  | zero => exact ⟨by simp [loopAt], rfl⟩
-  | succ fuel ih =>
+theorem loopOver_ok (env : Env) (innerLog : Nat → Reg → NRet) (hin : InnerLogOk innerLog)
+    (i : Nat) (ks : List Nat) (reg : Reg) (hi : LockInv reg) :
+    (loopOver env innerLog i ks reg).res ≠ .blocked ∧ Frame reg (loopOver env innerLog i ks reg).reg := by
+  induction ks generalizing reg with
+  | nil => exact ⟨by simp [loopOver], rfl⟩
+  | cons k ks ih =>
     have h := emitAt_ok env innerLog hin k i reg hi
-    unfold loopAt
+    unfold loopOver
     simp only []
     cases hres : (emitAt env innerLog k i reg).res with
     | ok =>
       simp only []
-      have ih := ih (k + 1) _ (lockInv_of_frame reg _ hi h.2)
+      have ih := ih _ (lockInv_of_frame reg _ hi h.2)
       exact ⟨ih.1, h.2.trans ih.2⟩
     | raised e => simp only []; exact ⟨by simp [hres], h.2⟩
     | blocked => exact absurd hres h.1
@@ -219,11 +263,11 @@ theorem loopN_innerLogOk (env : Env) (n : Nat) : InnerLogOk (fun j r => loopN en
   | zero =>
     intro j r hi
     simp only [loopN]
-    exact loopAt_ok env _ innerLogOk_trivial j r.length 0 r hi
+    exact loopOver_ok env _ innerLogOk_trivial j _ r hi
   | succ n ih =>
     intro j r hi
     simp only [loopN]
-    exact loopAt_ok env _ ih j r.length 0 r hi
+    exact loopOver_ok env _ ih j _ r hi
 
 /-- quiet registries satisfy the lock invariant, and a frame maps them to quiet registries -/
 theorem lockInv_of_allQuiet (reg : Reg) (hq : AllQuiet reg) : LockInv reg := by
@@ -244,7 +288,7 @@ theorem allQuiet_of_frame (r r' : Reg) (hq : AllQuiet r) (hf : Frame r r') : All
 
 def QOk (r : Reg) : Prop := ∀ p ∈ r, QItem.sentinel ∉ p.2.queue
 
-def InnerQOk (innerLog : Nat → Reg → NRet) : Prop := ∀ j r, QOk r → QOk (innerLog j r).reg
+def InnerQOk (innerLog : Nat → Reg → NRet) : Prop := ∀ j r, LockInv r → QOk r → QOk (innerLog j r).reg
 
 theorem qok_set (r : Reg) (k : Nat) (c : Cfg) (s' : HState) (hq : QOk r) (hs : QItem.sentinel ∉ s'.queue) :
     QOk (r.set k (c, s')) := by
@@ -253,20 +297,44 @@ theorem qok_set (r : Reg) (k : Nat) (c : Cfg) (s' : HState) (hq : QOk r) (hs : Q
   · exact hq p hp
   · exact hs
 
-theorem runInnerN_q (innerLog : Nat → Reg → NRet) (hin : InnerQOk innerLog) (js : List Nat) (r : Reg)
-    (hq : QOk r) : QOk (runInnerN innerLog js r).reg := by
+theorem actAt_q (env : Env) (innerLog : Nat → Reg → NRet) (hin : InnerQOk innerLog) (k : Nat) (c : Cfg)
+    (a : InnerAct) (r : Reg) (hi : LockInv r) (hb : BusyAt k c r) (hq : QOk r) :
+    QOk (actAt env innerLog k c a r).reg := by
+  obtain ⟨s, hk, hm⟩ := hb
+  have hs : QItem.sentinel ∉ s.queue := hq (c, s) (List.mem_of_getElem? hk)
+  cases a with
+  | log j => exact hin j r hi hq
+  | removeSelf kk =>
+    simp only [actAt, removeSelfAt, hk]
+    split
+    · exact hq
+    · simp only [stopH_marker env c kk { s with published := false } hm]
+      exact qok_set _ _ _ _ hq hs
+  | completeSelf =>
+    simp only [actAt, completeSelfAt, hk, tasksLocked_marker s hm]
+    exact qok_set _ _ _ _ hq hs
+
+theorem runInnerN_q (env : Env) (innerLog : Nat → Reg → NRet) (hok : InnerLogOk innerLog)
+    (hin : InnerQOk innerLog) (k : Nat) (c : Cfg) (js : List InnerAct) (r : Reg)
+    (hi : LockInv r) (hb : BusyAt k c r) (hq : QOk r) :
+    QOk (runInnerN (actAt env innerLog k c) js r).reg := by
   induction js generalizing r with
   | nil => exact hq
   | cons j rest ih =>
+    have ha := actAt_ok env innerLog hok k c j r hi hb
+    have hqa := actAt_q env innerLog hin k c j r hi hb hq
     unfold runInnerN
     simp only []
     split
-    · exact ih _ (hin j r hq)
-    · exact hin j r hq
+    · exact ih _ (lockInv_of_frame r _ hi ha.2) (busyAt_of_frame k c r _ hb ha.2) hqa
+    · exact hqa
 
-theorem lockedBodyAt_q (env : Env) (innerLog : Nat → Reg → NRet) (hin : InnerQOk innerLog)
-    (k i : Nat) (c : Cfg) (s1 : HState) (reg1 : Reg) (hs1 : QItem.sentinel ∉ s1.queue) (hq : QOk reg1) :
+theorem lockedBodyAt_q (env : Env) (innerLog : Nat → Reg → NRet) (hok : InnerLogOk innerLog)
+    (hin : InnerQOk innerLog)
+    (k i : Nat) (c : Cfg) (s1 : HState) (reg1 : Reg) (hk : reg1[k]? = some (c, s1)) (hm1 : s1.marker = true)
+    (hi : LockInv reg1) (hq : QOk reg1) :
     QOk (lockedBodyAt env innerLog k i c s1 reg1).reg := by
+  have hs1 : QItem.sentinel ∉ s1.queue := hq (c, s1) (List.mem_of_getElem? hk)
   unfold lockedBodyAt
   split
   · exact hq
@@ -277,21 +345,25 @@ theorem lockedBodyAt_q (env : Env) (innerLog : Nat → Reg → NRet) (hin : Inne
       · exact hs1
       · simp only [List.mem_append, List.mem_singleton, not_or]
         exact ⟨hs1, fun h => queuedItem_ne_sentinel env c i h.symm⟩
-    · have h := runInnerN_q innerLog hin (env.reenter i c.id) reg1 hq
+    · have h := runInnerN_q env innerLog hok hin k c (env.reenter i c.id) reg1 hi ⟨s1, hk, hm1⟩ hq
       simp only []
       split
       · split
-        · rename_i c' s2 hk
+        · rename_i c' s2 hk2
           apply qok_set _ _ _ _ h
           rw [(rawWrite_ctl env c i s2).2.2]
-          exact h (c', s2) (List.mem_of_getElem? hk)
+          exact h (c', s2) (List.mem_of_getElem? hk2)
         · exact h
       · exact h
 
-theorem protectedLockAt_q (env : Env) (innerLog : Nat → Reg → NRet) (hin : InnerQOk innerLog)
-    (k i : Nat) (c : Cfg) (s : HState) (reg : Reg) (hk : reg[k]? = some (c, s)) (hq : QOk reg) :
+theorem protectedLockAt_q (env : Env) (innerLog : Nat → Reg → NRet) (hok : InnerLogOk innerLog)
+    (hin : InnerQOk innerLog)
+    (k i : Nat) (c : Cfg) (s : HState) (reg : Reg) (hk : reg[k]? = some (c, s)) (hi : LockInv reg)
+    (hq : QOk reg) :
     QOk (protectedLockAt env innerLog k i c s reg).reg := by
   have hs : QItem.sentinel ∉ s.queue := hq (c, s) (List.mem_of_getElem? hk)
+  have hlt : k < reg.length := by
+    rcases List.getElem?_eq_some_iff.1 hk with ⟨h, _⟩; exact h
   unfold protectedLockAt
   split
   · split
@@ -299,8 +371,15 @@ theorem protectedLockAt_q (env : Env) (innerLog : Nat → Reg → NRet) (hin : I
     · exact qok_set _ _ _ _ hq hs
   · split
     · exact qok_set _ _ _ _ hq hs
-    · have hb := lockedBodyAt_q env innerLog hin k i c { s with marker := true, lockHeld := true }
-        (reg.set k (c, { s with marker := true, lockHeld := true })) hs (qok_set _ _ _ _ hq hs)
+    · have hk1 : (reg.set k (c, { s with marker := true, lockHeld := true }))[k]? =
+          some (c, { s with marker := true, lockHeld := true }) := List.getElem?_set_self hlt
+      have hi1 : LockInv (reg.set k (c, { s with marker := true, lockHeld := true })) := by
+        intro p hp
+        rcases List.mem_or_eq_of_mem_set hp with hp | rfl
+        · exact hi p hp
+        · intro _; rfl
+      have hb := lockedBodyAt_q env innerLog hok hin k i c { s with marker := true, lockHeld := true }
+        (reg.set k (c, { s with marker := true, lockHeld := true })) hk1 rfl hi1 (qok_set _ _ _ _ hq hs)
       simp only []
       split
       · exact hb
@@ -313,8 +392,9 @@ theorem protectedLockAt_q (env : Env) (innerLog : Nat → Reg → NRet) (hin : I
           exact qok_set _ _ _ _ hb (hb (c', s3) (List.mem_of_getElem? hk3))
         · exact hb
 
-theorem emitAt_q (env : Env) (innerLog : Nat → Reg → NRet) (hin : InnerQOk innerLog)
-    (k i : Nat) (reg : Reg) (hq : QOk reg) : QOk (emitAt env innerLog k i reg).reg := by
+theorem emitAt_q (env : Env) (innerLog : Nat → Reg → NRet) (hok : InnerLogOk innerLog)
+    (hin : InnerQOk innerLog)
+    (k i : Nat) (reg : Reg) (hi : LockInv reg) (hq : QOk reg) : QOk (emitAt env innerLog k i reg).reg := by
   unfold emitAt
   cases hk : reg[k]? with
   | none => exact hq
@@ -339,30 +419,33 @@ theorem emitAt_q (env : Env) (innerLog : Nat → Reg → NRet) (hin : InnerQOk i
     · split
       · exact hq
       · exact hq
-      · exact protectedLockAt_q env innerLog hin k i c s reg hk hq
+      · exact protectedLockAt_q env innerLog hok hin k i c s reg hk hi hq
 
-theorem loopAt_q (env : Env) (innerLog : Nat → Reg → NRet) (hin : InnerQOk innerLog)
-    (i fuel k : Nat) (reg : Reg) (hq : QOk reg) : QOk (loopAt env innerLog i fuel k reg).reg := by
-  induction fuel generalizing k reg with
-  | zero => exact hq
-  | succ fuel ih =>
-    have h := emitAt_q env innerLog hin k i reg hq
-    unfold loopAt
+theorem loopOver_q (env : Env) (innerLog : Nat → Reg → NRet) (hok : InnerLogOk innerLog)
+    (hin : InnerQOk innerLog)
+    (i : Nat) (ks : List Nat) (reg : Reg) (hi : LockInv reg) (hq : QOk reg) :
+    QOk (loopOver env innerLog i ks reg).reg := by
+  induction ks generalizing reg with
+  | nil => exact hq
+  | cons k ks ih =>
+    have h := emitAt_q env innerLog hok hin k i reg hi hq
+    have hf := emitAt_ok env innerLog hok k i reg hi
+    unfold loopOver
     simp only []
     split
-    · exact ih (k + 1) _ h
+    · exact ih _ (lockInv_of_frame reg _ hi hf.2) h
     · exact h
 
 theorem loopN_innerQOk (env : Env) (n : Nat) : InnerQOk (fun j r => loopN env n j r) := by
   induction n with
   | zero =>
-    intro j r hq
+    intro j r hi hq
     simp only [loopN]
-    exact loopAt_q env _ (fun _ _ h => h) j r.length 0 r hq
+    exact loopOver_q env _ innerLogOk_trivial (fun _ _ _ h => h) j _ r hi hq
   | succ n ih =>
-    intro j r hq
+    intro j r hi hq
     simp only [loopN]
-    exact loopAt_q env _ ih j r.length 0 r hq
+    exact loopOver_q env _ (loopN_innerLogOk env n) ih j _ r hi hq
 
 /-- registry-level logging with arbitrarily nested re-entrant sinks keeps every handler in working
     order and never blocks -/
@@ -370,7 +453,7 @@ theorem loopN_good (env : Env) (n i : Nat) (reg : Reg) (hg : AllGood reg) :
     AllGood (loopN env n i reg).reg ∧ (loopN env n i reg).res ≠ .blocked := by
   have hq : AllQuiet reg := fun p hp => (hg p hp).1
   have h := loopN_innerLogOk env n i reg (lockInv_of_allQuiet reg hq)
-  have hqq := loopN_innerQOk env n i reg (fun p hp => (hg p hp).2.2.2)
+  have hqq := loopN_innerQOk env n i reg (lockInv_of_allQuiet reg hq) (fun p hp => (hg p hp).2.2.2)
   refine ⟨?_, h.1⟩
   intro p' hp'
   rcases List.mem_iff_getElem?.1 hp' with ⟨k, hk⟩
@@ -392,7 +475,8 @@ theorem stepWN_good (env : Env) (ht : Spec.StderrTame env) (n : Nat) (w : World)
     · exact ⟨hg, by simp⟩
     · split
       · exact ⟨hg, by simp⟩
-      · exact loopN_good env n i w.reg hg
+      · have h := loopN_good env n i w.reg hg
+        exact ⟨fun p hp => h.1 p (List.mem_filter.1 hp).1, h.2⟩
   | complete => exact stepW_good env ht n w .complete hg
   | remove hid k => exact stepW_good env ht n w (.remove hid k) hg
 
@@ -426,7 +510,7 @@ theorem runWN_good (env : Env) (ht : Spec.StderrTame env) (n : Nat) (ops : List 
       simp only [List.mem_cons, not_or]
       exact ⟨fun h => hs.2 h.symm, this.2⟩
 
-theorem lockedBodyAt_eq (env : Env) (innerLog : Nat → Reg → NRet) (inner : Nat → Step) (k i : Nat) (c : Cfg)
+theorem lockedBodyAt_eq (env : Env) (innerLog : Nat → Reg → NRet) (inner : InnerAct → Step) (k i : Nat) (c : Cfg)
     (s1 : HState) (reg1 : Reg) (hk : reg1[k]? = some (c, s1)) (hre : env.reenter i c.id = []) :
     lockedBodyAt env innerLog k i c s1 reg1 =
       ⟨reg1.set k (c, (lockedBody env c i inner s1).st), (lockedBody env c i inner s1).ev,
@@ -438,7 +522,7 @@ theorem lockedBodyAt_eq (env : Env) (innerLog : Nat → Reg → NRet) (inner : N
     · rfl
     · simp only [hre, runInnerN, hk, sinkWrite, runInner]
 
-theorem protectedLockAt_eq (env : Env) (innerLog : Nat → Reg → NRet) (inner : Nat → Step) (k i : Nat)
+theorem protectedLockAt_eq (env : Env) (innerLog : Nat → Reg → NRet) (inner : InnerAct → Step) (k i : Nat)
     (c : Cfg) (s : HState) (reg : Reg) (hk : reg[k]? = some (c, s)) (hre : env.reenter i c.id = []) :
     protectedLockAt env innerLog k i c s reg =
       ⟨reg.set k (c, (protectedLock (lockedBody env c i inner) s).st),
@@ -459,7 +543,7 @@ theorem protectedLockAt_eq (env : Env) (innerLog : Nat → Reg → NRet) (inner 
       | ok => simp [hk2]
       | raised e => simp [hk2]
 
-theorem emitAt_eq (env : Env) (innerLog : Nat → Reg → NRet) (inner : Nat → Step) (k i : Nat)
+theorem emitAt_eq (env : Env) (innerLog : Nat → Reg → NRet) (inner : InnerAct → Step) (k i : Nat)
     (c : Cfg) (s : HState) (reg : Reg) (hk : reg[k]? = some (c, s)) (hre : env.reenter i c.id = []) :
     emitAt env innerLog k i reg =
       ⟨reg.set k (c, (emitWith env c i inner s).st), (emitWith env c i inner s).ev,
@@ -483,34 +567,34 @@ theorem emitAt_eq (env : Env) (innerLog : Nat → Reg → NRet) (inner : Nat →
       | raised e => simp only []; split <;> simp [hres]
 
 /-- the `inner` that `emitD env c n` hands to `emitWith` -/
-def innerOf (env : Env) (c : Cfg) : Nat → Nat → Step
+def innerOf (env : Env) (c : Cfg) : Nat → InnerAct → Step
   | 0 => fun _ s => ⟨s, [], .ok⟩
-  | n + 1 => emitD env c n
+  | n + 1 => innerD env c n
 
 theorem emitD_eq_emitWith (env : Env) (c : Cfg) (n i : Nat) (s : HState) :
     emitD env c n i s = emitWith env c i (innerOf env c n) s := by
   cases n <;> rfl
 
-theorem loopAt_eq_logLoop (env : Env) (innerLog : Nat → Reg → NRet) (n i : Nat) (todo done : Reg)
-    (hre : ∀ p ∈ todo, env.reenter i p.1.id = []) :
-    loopAt env innerLog i todo.length done.length (done ++ todo) =
+theorem loopOver_eq_logLoop (env : Env) (innerLog : Nat → Reg → NRet) (n i : Nat) (todo done : Reg)
+    (hre : ∀ p ∈ todo, env.reenter i p.1.id = []) (hpub : ∀ p ∈ todo, p.2.published = true) :
+    loopOver env innerLog i (visitFrom done.length todo) (done ++ todo) =
       ⟨done ++ (logLoop env n i todo).reg, (logLoop env n i todo).ev, (logLoop env n i todo).res⟩ := by
   induction todo generalizing done with
-  | nil => simp [loopAt, logLoop]
+  | nil => simp [loopOver, visitFrom, logLoop]
   | cons p rest ih =>
     obtain ⟨c, s⟩ := p
     have hk : (done ++ (c, s) :: rest)[done.length]? = some (c, s) := by simp
     have he := emitAt_eq env innerLog (innerOf env c n) done.length i c s _ hk (hre (c, s) (by simp))
     have hset : ∀ x : HState, (done ++ (c, s) :: rest).set done.length (c, x) = done ++ (c, x) :: rest := by
       intro x; simp
-    simp only [List.length_cons]
-    unfold loopAt logLoop
-    simp only [he, hset, emitD_eq_emitWith]
+    have hp : s.published = true := hpub (c, s) (by simp)
+    unfold visitFrom loopOver logLoop
+    simp only [hp, if_true, he, hset, emitD_eq_emitWith]
     cases hres : (emitWith env c i (innerOf env c n) s).res with
     | ok =>
       simp only []
       have ih := ih (done ++ [(c, (emitWith env c i (innerOf env c n) s).st)])
-        (fun p hp => hre p (by simp [hp]))
+        (fun p hp => hre p (by simp [hp])) (fun p hp => hpub p (by simp [hp]))
       simp only [List.length_append, List.length_cons, List.length_nil, List.append_assoc,
         List.cons_append, List.nil_append] at ih
       rw [ih]
@@ -520,9 +604,9 @@ theorem loopAt_eq_logLoop (env : Env) (innerLog : Nat → Reg → NRet) (n i : N
 /-- BRIDGE between the two model layers: when no handler's sink calls the logger for message `i`, the
     registry-level loop is the handler-level loop -/
 theorem loopN_eq_logLoop (env : Env) (n i : Nat) (reg : Reg)
-    (hre : ∀ p ∈ reg, env.reenter i p.1.id = []) :
+    (hre : ∀ p ∈ reg, env.reenter i p.1.id = []) (hpub : ∀ p ∈ reg, p.2.published = true) :
     loopN env n i reg = ⟨(logLoop env n i reg).reg, (logLoop env n i reg).ev, (logLoop env n i reg).res⟩ := by
-  have h := fun il => loopAt_eq_logLoop env il n i reg [] hre
+  have h := fun il => loopOver_eq_logLoop env il n i reg [] hre hpub
   simp only [List.length_nil, List.nil_append] at h
   cases n with
   | zero => simp only [loopN]; exact h _
